@@ -490,6 +490,11 @@ def history_order_rule(ctx, res, rule: str) -> None:
                 return ("seq", canon(raw), direction(g.target, g.iter, raw), e)
         if isinstance(e, ast.Call) and call_name(e) in ("list", "tuple") and len(e.args) == 1:
             return seq_of(e.args[0])
+        if isinstance(e, ast.Call) and call_name(e) == "map" and len(e.args) == 2:
+            # map(f, <iterable over the list>) is the comprehension [f(x) for x in <iterable>]
+            raw = next((x for x in ast.walk(e.args[1]) if canon(x)), None)
+            if raw is not None:
+                return ("seq", canon(raw), direction(ast.Name(id="_x", ctx=ast.Store()), e.args[1], raw), e)
         return None
 
     def evaluate(fn, depth=0):
